@@ -130,6 +130,14 @@ def run(ck):
     if storage_seen:
         if not ck.known_finding_seen(KF_STORAGE):
             ck.violation(KF_STORAGE, files[0], 'MMIO backing storage survives Reset')
+    # Reset in the composed machine: guest programs with mailbox / audio / DMA / paging activity, the host calls
+    # Teakra::Reset between two slices (and loads the program again); System.tla!SysReset must give the complete
+    # observation after the call and after every later slice (the MMIO backing storage survives, as the listed finding says)
+    from props import sys_common
+    ck.build('sys_rec')
+    sfiles = sys_common.record(ck, ck.pick(6, 16), ck.pick(8, 12), tag='sysreset', mode='io', seedoff=2500)
+    sys_common.validate(ck, sfiles)
+    ck.extra_cov['in_system_resets'] = sum(open(f).read().count('"op":"Reset"') for f in sfiles)
     ck.extra_cov['model_current_violates_only_for_mmio_storage'] = model_storage_only
     ck.sample({'trace_line_kinds': ['Obs(reference)', 'New', 'Obs(fresh)', 'Reset', 'Obs(fresh_reset)', 'Hist', 'Obs(dirty)',
                                     'Reset', 'Obs(reset)', 'Obs(replayed_after_reset)', 'Obs(replayed_on_fresh)'],
